@@ -1,5 +1,8 @@
 import PercevalModel.Proto
 import PercevalModel.Model.C02
+import PercevalModel.Lemmas.FockComp
+import PercevalModel.Found.Memo
+import PercevalModel.Found.Perm
 
 open Lean PM PM.Proto PM.Fock PM.C02
 
@@ -13,9 +16,78 @@ def maskOfJson (j : Json) : Except String (List (Option ℕ)) := do
 
 def statesJson (l : List (List ℕ)) : Json := Json.arr (l.map (fun s => toJson s)).toArray
 
+def squareOf (j : Json) (m : ℕ) : Except String (Matrix (Fin m) (Fin m) GQ) := do
+  let rows ← gqRows j
+  if rows.size ≠ m ∨ rows.any (·.size ≠ m) then throw "bad matrix"
+  return matOfRows m rows
+
+/-- one element of the Stepper's circuit: `{"r0":…, "U": rows}` or `{"r0":…, "perm": […]}` -/
+def stepOfJson (M : ℕ) (j : Json) : Except String (Step GQ) := do
+  let r0 ← natOf j "r0"
+  match j.getObjVal? "perm" with
+  | .ok pj =>
+    let σ ← natList pj
+    if ¬ decide (IsPermList σ.length σ) then throw "not a permutation"
+    if r0 + σ.length > M then throw "component outside the circuit"
+    return .perm r0 σ
+  | .error _ =>
+    let rows ← gqRows (← j.getObjVal? "U")
+    let k := rows.size
+    if rows.any (·.size ≠ k) then throw "bad matrix"
+    if r0 + k > M then throw "component outside the circuit"
+    return .block ⟨k, r0, matOfRows k rows⟩
+
+/-- the full-size matrix of one element (`embed`; a PERM is the block `u[σ j, j] = 1`) -/
+def stepMatrix (M : ℕ) : Step GQ → Matrix (Fin M) (Fin M) GQ
+  | .block c => PM.embed M c.r0 c.B
+  | .perm r0 σ => PM.embed M r0 (permMatL (R := GQ) σ.length σ)
+
 def handle (j : Json) : Json :=
   match (do
     let op ← strOf j "op"
+    match op with
+    | "mps2" =>
+      -- MPSBackend._transition_matrix_2_mode: the double sum, all (n1, n2, m1, m2) < d = nmax + 1
+      let U ← squareOf (← j.getObjVal? "U") 2
+      let nmax ← natOf j "nmax"
+      let r := List.range (nmax + 1)
+      let cells := r.flatMap fun n1 => r.flatMap fun n2 => r.flatMap fun m1 => r.map fun m2 =>
+        (n1, n2, m1, m2)
+      let tm := cells.map fun (n1, n2, m1, m2) => gqToJson (tm2 U nmax n1 n2 m1 m2)
+      let pa := cells.map fun (n1, n2, m1, m2) => gqToJson (pamp U [n1, n2] [m1, m2])
+      return Json.mkObj [("tm2", Json.arr tm.toArray), ("pamp", Json.arr pa.toArray)]
+    | "mps1" =>
+      let U ← squareOf (← j.getObjVal? "U") 1
+      let d ← natOf j "d"
+      let r := List.range d
+      let cells := r.flatMap fun i => r.map fun k => (i, k)
+      let tm := cells.map fun (i, k) => gqToJson (tm1 U d i k)
+      let pa := cells.map fun (i, k) => gqToJson (pamp U [i] [k])
+      return Json.mkObj [("tm1", Json.arr tm.toArray), ("pamp", Json.arr pa.toArray)]
+    | "stepper" =>
+      -- Stepper.compile, element by element, every intermediate vector
+      let M ← natOf j "m"
+      let s ← natList (← j.getObjVal? "s")
+      if s.length ≠ M then throw "bad input state"
+      let steps ← (← arrOf j "steps").toList.mapM (stepOfJson M)
+      let sts := allStates M s.sum
+      let init : SV GQ := [(s, (prodFact s : GQ))]
+      let (_, vecsRev) := steps.foldl (fun (acc : SV GQ × List (SV GQ)) st =>
+        let sv := stepperStep FockComp.gqInv st acc.1
+        (sv, sv :: acc.2)) (init, [])
+      let vecs := vecsRev.reverse
+      let final := stepperRunS FockComp.gqInv steps s
+      -- the matrix of the whole list, materialised after every product
+      let A := steps.foldl (fun (A : MatV GQ M M) st =>
+        MatV.ofMatrix (stepMatrix M st * A.toMatrix)) (MatV.ofMatrix (1 : Matrix (Fin M) (Fin M) GQ))
+      let vj := vecs.map fun (sv : SV GQ) => Json.arr (sts.map fun t => gqToJson (svGet sv t)).toArray
+      let outside := vecs.map fun (sv : SV GQ) =>
+        toJson (sv.filter fun (p : List ℕ × GQ) => !(sts.contains p.1)).length
+      return Json.mkObj [("states", statesJson sts), ("vecs", Json.arr vj.toArray),
+        ("final", Json.arr (sts.map fun t => gqToJson (svGet final t)).toArray),
+        ("pamp", Json.arr (sts.map fun t => gqToJson (pamp A.toMatrix s t)).toArray),
+        ("outside", Json.arr outside.toArray)]
+    | _ =>
     let m ← natOf j "m"
     let rows ← gqRows (← j.getObjVal? "U")
     if rows.size ≠ m ∨ rows.any (·.size ≠ m) then throw "bad matrix"
@@ -39,8 +111,10 @@ def handle (j : Json) : Json :=
       let probs := (allProb U s masks).map ratToJson
       let extra ← (← arrOf j "extra").toList.mapM natList
       let ex := extra.map fun t => gqToJson (pamp U s t)
+      let evp := (evolveProbs U s masks).map fun (p : List ℕ × ℚ) => ratToJson p.2
       return Json.mkObj [("states", statesJson sts), ("pamp", Json.arr amps.toArray),
-        ("prob", Json.arr probs.toArray), ("extra", Json.arr ex.toArray)]
+        ("prob", Json.arr probs.toArray), ("extra", Json.arr ex.toArray),
+        ("mass", ratToJson (keptMass U s masks)), ("evprob", Json.arr evp.toArray)]
     | "perm" =>
       let perm ← natList (← j.getObjVal? "perm")
       let r0 ← natOf j "r0"
